@@ -63,6 +63,7 @@ func runJSConvJ2T(c *h.Ctx) {
 		want := tref.Struct()
 		var ms []string
 		quotedNumeric := false
+		emptySpelled := map[int16]bool{}
 		for _, f := range fields {
 			if !cs.R.Chance(80) {
 				if f.Req == gen.ReqRequired {
@@ -95,6 +96,7 @@ func runJSConvJ2T(c *h.Ctx) {
 					quotedNumeric = true
 					if v.I == 0 && cs.R.Chance(30) {
 						txt = `""` // documented: the empty string stands for 0
+						emptySpelled[f.ID] = true
 					}
 				}
 			}
@@ -121,6 +123,27 @@ func runJSConvJ2T(c *h.Ctx) {
 		if err != nil {
 			cs.Viol("j2t:js-conv:error-on-conforming", "err", err)
 			return
+		}
+		// defect model of the known finding C02-K2: the native inline js_conv writer falls through from its
+		// I16 case into the I08 case and appends the value's low byte after every mapped i16 value
+		if mapping {
+			pred := []byte{}
+			stray := false
+			for _, f := range want.Fs {
+				fd := sc.Root.Field(f.ID)
+				one := tref.Struct(tref.Field{ID: f.ID, V: f.V})
+				enc := tref.Encode(one)
+				pred = append(pred, enc[:len(enc)-1]...)
+				if fd.T.T == tref.I16 && isJSConv(fd) && !emptySpelled[f.ID] { // "" takes the Go path
+					pred = append(pred, byte(f.V.I))
+					stray = true
+				}
+			}
+			pred = append(pred, 0)
+			if stray && string(pred) == string(out) {
+				cs.Viol("j2t:js-conv:i16-stray-byte", "out", out)
+				return
+			}
 		}
 		got, derr := tref.Decode(out, tref.STRUCT)
 		if derr != nil {
